@@ -18,14 +18,15 @@ RELOADS = ("load_defaults", "load_overrides", "load_collection", "load_shell_env
 # generator state: a schema (path -> section | leaf kind) grown by the writes
 # --------------------------------------------------------------------------
 class Gen:
-    def __init__(self, rng, long=False):
+    def __init__(self, rng, long=False, kinds=None):
         self.rng = rng
+        self.fresh_kinds = "nbislt" + ("eB" if kinds and "e" in kinds else "")
         # keys with a leading / trailing underscore too: attribute syntax applies to them
         self.keys = cc.SAFE_KEYS + (["_a", "a_", "_k"] if rng.random() < 0.4 else [])
         self.sch = cc.schema(rng, depth=rng.choice([2, 3, 3]), width=rng.choice([2, 3, 4]),
                              keys=(self.keys if len(self.keys) == len(cc.SAFE_KEYS)
                                    else ["_a", "a_", "_k"] + rng.sample(cc.SAFE_KEYS, 5)),
-                             kinds=rng.choice(["nbis", "nbislt", "nbislt"]), p_section=0.5)
+                             kinds=kinds or rng.choice(["nbis", "nbislt", "nbislt"]), p_section=0.5)
         self.files = {}        # location -> suffix, file levels that may be (re)loaded inside the history
         if not any(isinstance(v, dict) for v in self.sch.values()):
             self.sch[rng.choice(["s", "t"])] = {"x": "i", "y": "s"}
@@ -45,7 +46,7 @@ class Gen:
         return t
 
     def inst(self, p_keep=None, kinds=None):
-        return gt.jsonable(cc.instance(self.rng, self.sch, p_keep or self.rng.choice([0.4, 0.7, 0.9]), kinds))
+        return cc.jsonable(cc.instance(self.rng, self.sch, p_keep or self.rng.choice([0.4, 0.7, 0.9]), kinds))
 
     def kill(self, p, dict_write=False):
         """handles at or below a deleted/overwritten path leave the scope; a dict
@@ -63,14 +64,14 @@ class Gen:
         par = self.node(kp)
         if k in par:
             if isinstance(par[k], dict):
-                return gt.jsonable(cc.instance(rng, par[k], rng.choice([0.3, 0.7, 1.0]))), True
-            return gt.leaf(rng, par[k]), False
+                return cc.jsonable(cc.instance(rng, par[k], rng.choice([0.3, 0.7, 1.0]))), True
+            return cc.leaf(rng, par[k]), False
         if rng.random() < 0.25:
             sub = cc.schema(rng, depth=rng.choice([1, 2]), width=2, kinds="nbis")
             par[k] = sub
-            return gt.jsonable(cc.instance(rng, sub, 0.8)), True
-        par[k] = rng.choice("nbislt")
-        return gt.leaf(rng, par[k]), False
+            return cc.jsonable(cc.instance(rng, sub, 0.8)), True
+        par[k] = rng.choice(self.fresh_kinds)
+        return cc.leaf(rng, par[k]), False
 
     def pick_key(self, kp, want_leaf=None, p_fresh=0.15):
         rng = self.rng
@@ -100,7 +101,7 @@ class Gen:
             [24, 13, 8, 3, 3, 6, 5, 6, 3, 2, 3, 6, 4, 2, 2, 0.5, 0.8])[0]
         if kind == "getm":
             k = self.pick_key(abs_kp, p_fresh=0.3)
-            d = None if rng.random() < 0.5 else {"d": gt.leaf(rng, "isn")}
+            d = None if rng.random() < 0.5 else {"d": cc.leaf(rng, "isn")}
             return ["getm", fl, kp, k, d]
         if kind == "view":
             return ["view", fl, kp, rng.choice(["items", "values", "dict"])]
@@ -157,7 +158,7 @@ class Gen:
             self.kill(abs_kp + (k,))
             if k not in self.node(abs_kp):      # later reloads may define the key popped in vain
                 self.node(abs_kp)[k] = rng.choice("is")
-            d = None if rng.random() < 0.4 else {"d": gt.leaf(rng, "isn")}      # pop(k, None) too
+            d = None if rng.random() < 0.4 else {"d": cc.leaf(rng, "isn")}      # pop(k, None) too
             return ["pop", fl, kp, k, d]
         if kind == "popitem":
             for k in list(self.node(abs_kp)):
@@ -366,10 +367,10 @@ def base_of(case, loads, env):
     lv = supplied_levels(dict(case, ops=loads))
     out = {}
     for name in ("defaults", "collection", "system", "user", "project"):
-        out = overlay(out, gt.unjson(lv[name]) or {})
-    out = overlay(out, gt.unjson(env) or {})
+        out = overlay(out, cc.unjson(lv[name]) or {})
+    out = overlay(out, cc.unjson(env) or {})
     for name in ("runtime", "overrides"):
-        out = overlay(out, gt.unjson(lv[name]) or {})
+        out = overlay(out, cc.unjson(lv[name]) or {})
     return out
 
 
@@ -397,11 +398,11 @@ def expect(root, op, out):
             d = d[k]
         else:
             return miss, []
-    J = gt.jsonable
+    J = cc.jsonable
     if name == "get":
         return ({"val": J(d[op[3]])} if op[3] in d else miss), []
     if name == "set":
-        return {"none": 1}, [("set", kp + [op[3]], gt.unjson(op[4]))]
+        return {"none": 1}, [("set", kp + [op[3]], cc.unjson(op[4]))]
     if name == "del":
         return ({"none": 1}, [("del", kp + [op[3]])]) if op[3] in d else (miss, [])
     if name == "pop":
@@ -419,12 +420,12 @@ def expect(root, op, out):
     if name == "setdefault":
         if op[3] in d:
             return {"val": J(d[op[3]])}, []
-        dv = None if op[4] is None else gt.unjson(op[4]["d"])
+        dv = None if op[4] is None else cc.unjson(op[4]["d"])
         return {"val": J(dv)}, [("set", kp + [op[3]], dv)]
     if name == "update":
-        return {"none": 1}, [("set", kp + [k], gt.unjson(v)) for k, v in op[3]]
+        return {"none": 1}, [("set", kp + [k], cc.unjson(v)) for k, v in op[3]]
     if name == "update_both":
-        return {"none": 1}, [("set", kp + [k], gt.unjson(v)) for k, v in list(op[3]) + list(op[4])]
+        return {"none": 1}, [("set", kp + [k], cc.unjson(v)) for k, v in list(op[3]) + list(op[4])]
     if name == "update_proxy":
         sd = root
         for k in op[3]:
@@ -435,7 +436,7 @@ def expect(root, op, out):
         return {"none": 1}, [("set", kp + [k], copy.deepcopy(v)) for k, v in sd.items()]
     if name == "rawset":
         if isinstance(d.get(op[3]), dict):
-            return {"none": 1}, [("set", kp + [op[3], op[4]], gt.unjson(op[5]))]
+            return {"none": 1}, [("set", kp + [op[3], op[4]], cc.unjson(op[5]))]
         return {"err": "TypeError"}, []
     if name == "contains":
         return {"bool": op[3] in d}, []
@@ -484,7 +485,7 @@ def diagnose(case, obs):
         nonlocal gen
         gen += 1
     for i, (op0, step) in enumerate(zip(case["ops"], obs["trace"])):
-        out, view = step["out"], gt.unjson(step["view"])
+        out, view = step["out"], cc.unjson(step["view"])
         op, via = op0, None
         if op[0] == "hold":
             want, _ = expect(st, ["len", op[2], list(op[3])], out)
@@ -593,9 +594,9 @@ def levels_have_section_with_other_key(case, obs, path, value):
     for k in range(len(case["ops"]) + 1):
         loads = [o for o in case["ops"][:k] if o[0].startswith("load_") or o[0].startswith("set_")]
         lv = supplied_levels(dict(case, ops=loads))
-        contents.extend(gt.unjson(t) or {} for t in lv.values())
+        contents.extend(cc.unjson(t) or {} for t in lv.values())
     for st in obs.get("trace", []):
-        contents.append(gt.unjson(st["env"]) or {})
+        contents.append(cc.unjson(st["env"]) or {})
     # earlier writes are a level too (the modifications level)
     def sub(t, p):
         for k in p:
@@ -830,8 +831,8 @@ class C06(Prop):
     def _live_before(self, case, obs, i):
         """the nested-dict reference right before step i (views agree up to there)"""
         if i == 0:
-            return gt.unjson(obs["view0"]["ok"])
-        return gt.unjson(obs["trace"][i - 1]["view"])
+            return cc.unjson(obs["view0"]["ok"])
+        return cc.unjson(obs["trace"][i - 1]["view"])
 
     def shrink_candidates(self, case):
         ops = case["ops"]
